@@ -1,4 +1,5 @@
 import CssVerif.Lemmas.SheetList
+import CssVerif.Lemmas.SheetBlocks
 /-!
 # C09 — a stylesheet stays structurally valid under any sequence of DOM edits
 
@@ -13,9 +14,16 @@ The operations: insertRule (any index, object or text, `inOrder` or not), add, i
 encoding, cssText of the sheet, namespaces[p] = u, del namespaces[p], and insertRule / insertRule(CSSRuleList) /
 deleteRule / cssText (complete texts, and texts with trailing content or an unclosed block) on the nested list at any
 path; raise or log-only mode; accepted, refused or interrupted.
+
+T9.5 (wave 3) extends the object graph to declaration blocks and properties (`Model/SheetBlocks.lean`, a heap with
+object identities; helpers `Lemmas/SheetBlocks.lean`): `rule.style = …`, `rule.cssText`, `style.cssText`, `setProperty`,
+item assignment, `removeProperty`. The last section states what survives and what breaks when objects that are already
+contained are handed in again or the list objects are edited around the DOM methods (`Model/SheetRaw.lean`): these
+are excluded by `DOpOK` and listed as known findings.
 -/
 namespace CssVerif.C09
 open CssVerif.SheetEdit CssVerif.SheetEdit.Wit
+open CssVerif.Proto (Cps)
 
 /-! ## T9.1a — order and @charset clause -/
 
@@ -291,6 +299,188 @@ example :
       .insertList [styleS, importS] none, .nInsertList [6] [styleS, varsS] none, .nSetText [6] [styleS],
       .insertOrdered varsS 0 false]
     AllOK ops ∧ (run St.empty ops).rules.length = 15 := by
+  decide +kernel
+
+/-! ## T9.5 — declaration blocks and properties are objects of the model
+
+`Model/SheetBlocks.lean`: every rule object with a `style` holds a `CSSStyleDeclaration` object, which holds
+`Property` objects; `_parentRule` / `_parent` are raw back pointers in a heap. `DValid` = `Valid` for the rules and
+`DLinks`: a block that is some rule's `style` names that rule and a block names only a rule that holds it; a property
+in a block names that block and a property names only a block that holds it. -/
+
+/-- **T9.5** every operation — all operations on rule lists (`DOp.sheet`), `rule.style = <new block object>` /
+`rule.style = text` / `rule.cssText = …`, `style.cssText = …`, `setProperty` (string or Property object, replacing or
+not, empty value), item assignment, `removeProperty` / `del style[name]`; accepted or refused, raise or log-only mode
+— leads from a valid object graph to a valid object graph: every rule, declaration block and property names its
+actual container, every removed / replaced / refused object names none. `DOpOK`: rule objects handed in are well
+nested, and a block object handed to a rule is not held by another rule (see `share_style_breaks_links`). -/
+theorem dstep_valid (ds : DSt) (op : DOp) (hv : DValid ds) (hs : DOpOK op) : DValid (dstep ds op).1 := by
+  refine ⟨?_, dstep_links ds op hv.links hs⟩
+  cases op with
+  | sheet o => rw [dstep_sheet_st]; exact step_valid ds.st o hv.sheet hs
+  | newStyle path items form => rw [dstep_st _ _ (by intro o h; cases h) (by rintro (⟨_, _, h⟩ | ⟨_, _, h⟩ | ⟨_, _, h⟩) <;> cases h)]; exact hv.sheet
+  | shareStyle path src => rw [dstep_st _ _ (by intro o h; cases h) (by rintro (⟨_, _, h⟩ | ⟨_, _, h⟩ | ⟨_, _, h⟩) <;> cases h)]; exact hv.sheet
+  | blockText path items => rw [dstep_st _ _ (by intro o h; cases h) (by rintro (⟨_, _, h⟩ | ⟨_, _, h⟩ | ⟨_, _, h⟩) <;> cases h)]; exact hv.sheet
+  | setProp path name wf empty replace => rw [dstep_st _ _ (by intro o h; cases h) (by rintro (⟨_, _, h⟩ | ⟨_, _, h⟩ | ⟨_, _, h⟩) <;> cases h)]; exact hv.sheet
+  | setPropObj path name => rw [dstep_st _ _ (by intro o h; cases h) (by rintro (⟨_, _, h⟩ | ⟨_, _, h⟩ | ⟨_, _, h⟩) <;> cases h)]; exact hv.sheet
+  | removeProp path name => rw [dstep_st _ _ (by intro o h; cases h) (by rintro (⟨_, _, h⟩ | ⟨_, _, h⟩ | ⟨_, _, h⟩) <;> cases h)]; exact hv.sheet
+  | sharePropObj path src i => rw [dstep_st _ _ (by intro o h; cases h) (by rintro (⟨_, _, h⟩ | ⟨_, _, h⟩ | ⟨_, _, h⟩) <;> cases h)]; exact hv.sheet
+  | rawDelete path i => exact absurd hs (by simp [DOpOK])
+  | rawInsert s i => exact absurd hs (by simp [DOpOK])
+  | reinsert path index => exact absurd hs (by simp [DOpOK])
+
+/-- the empty sheet, where every rule object yet to be made comes with its own block, is valid -/
+theorem dempty_valid (raising : Bool) : DValid (DSt.init (St.empty raising)) :=
+  ⟨empty_valid raising, init_links _⟩
+
+/-- **T9.5 for histories** of any length and any operations on rules, blocks and properties -/
+theorem dreachable_valid (ds : DSt) (ops : List DOp) (hv : DValid ds) (hc : ∀ op ∈ ops, DOpOK op) :
+    DValid (drun ds ops) := by
+  induction ops generalizing ds with
+  | nil => exact hv
+  | cons op ops ih =>
+    exact ih (dstep ds op).1 (dstep_valid ds op hv (hc op (by simp))) (fun o ho => hc o (by simp [ho]))
+
+/-- in a valid object graph the block of EVERY rule object — at any depth of the tree, or removed from it (a removed
+rule keeps its block) — names that rule, and its properties name the block -/
+theorem block_and_properties_name_container (ds : DSt) (hv : DValid ds) (rid : Nat) :
+    ds.bprule (ds.style rid) = some rid ∧ ∀ p ∈ ds.bprops (ds.style rid), ds.ph.parent p = some (ds.style rid) :=
+  ⟨hv.links.blockUp rid, fun p hp => hv.links.propUp _ p hp⟩
+
+/-- a block object that is no rule's `style` (replaced by an edit) names no rule; a property object that is in no
+block (removed, replaced, or handed in and not taken) names no block -/
+theorem removed_objects_name_none (ds : DSt) (hv : DValid ds) :
+    (∀ b, (∀ rid, ds.style rid ≠ b) → ds.bprule b = none) ∧
+    (∀ p, (∀ b, p ∉ ds.bprops b) → ds.ph.parent p = none) := by
+  constructor
+  · intro b h
+    cases hb : ds.bprule b with
+    | none => rfl
+    | some r => exact absurd (hv.links.blockOnly b r hb) (h r)
+  · intro p h
+    cases hp : ds.ph.parent p with
+    | none => rfl
+    | some b => exact absurd (hv.links.propOnly p b hp) (h b)
+
+/-- no object is held twice: a block is the `style` of one rule, a property is in one block -/
+theorem containers_unique (ds : DSt) (hv : DValid ds) :
+    (∀ r1 r2, ds.style r1 = ds.style r2 → r1 = r2) ∧
+    (∀ p b1 b2, p ∈ ds.bprops b1 → p ∈ ds.bprops b2 → b1 = b2) := by
+  refine ⟨fun r1 r2 h => hv.links.style_inj h, fun p b1 b2 h1 h2 => ?_⟩
+  have e1 := hv.links.propUp b1 p h1
+  rw [hv.links.propUp b2 p h2] at e1
+  exact (Option.some.inj e1).symm
+
+/-- what the accepted edits do (so that T9.5 is not about an idle model): a new block replaces the old one, which is
+recorded and names nothing, the new one names the rule and has one property per well-formed declaration;
+`removeProperty` leaves no property of that name, the removed objects name nothing and are recorded -/
+theorem newStyle_effect (ds : DSt) (path : List Nat) (items : List (Cps × Bool)) (form rid : Nat) (names : List Cps)
+    (hv : DValid ds) (hr : styledAt ds.st path = some rid) (hp : parseItems ds.st.raising items = some names) :
+    let ds' := (dstep ds (.newStyle path items form)).1
+    ds'.style rid ≠ ds.style rid ∧ ds'.bprule (ds.style rid) = none ∧ ds'.bprule (ds'.style rid) = some rid ∧
+      (ds'.bprops (ds'.style rid)).length = names.length ∧ ds.style rid ∈ ds'.goneB := by
+  simp only [dstep, hr, hp]
+  exact newStyleAt_effect ds rid names hv.links
+
+theorem removeProp_effect (ds : DSt) (path : List Nat) (name : Cps) (rid : Nat) (hne : name ≠ [])
+    (hr : styledAt ds.st path = some rid) :
+    let ds' := (dstep ds (.removeProp path name)).1
+    (∀ p ∈ ds'.bprops (ds'.style rid), ds'.ph.name p ≠ name) ∧
+      (∀ p ∈ ds.bprops (ds.style rid), ds.ph.name p = name → ds'.ph.parent p = none ∧ p ∈ ds'.goneP) := by
+  have : name.isEmpty = false := by cases name with
+    | nil => exact absurd rfl hne
+    | cons a l => rfl
+  simp only [dstep, hr, this]
+  exact removePropAt_effect ds rid name
+
+/-- a refused text leaves everything as it was: `style.cssText = 'top: ; x'` in raise mode -/
+theorem blockText_refused (ds : DSt) (path : List Nat) (items : List (Cps × Bool)) (rid : Nat)
+    (hr : styledAt ds.st path = some rid) (hm : ds.st.raising = true) (hbad : items.any (fun i => !i.2) = true) :
+    dstep ds (.blockText path items) = (ds, .err .syntaxErr) := by
+  simp [dstep, hr, parseItems, hm, hbad]
+
+/-- **re-inserting a contained object breaks the links** (why `DOpOK` asks for it not to happen):
+`a{} b{}` then `rule0.style = rule1.style` — the block is held by two rules and names only the second of them.
+Recorded as known finding `C09-shared-declaration-block`. -/
+theorem share_style_breaks_links :
+    let ds := drun (DSt.init St.empty) [.sheet (.add styleS false), .sheet (.add styleS false), .shareStyle [0] [1]]
+    ds.style 0 = ds.style 1 ∧ ds.bprule (ds.style 1) = some 0 ∧ ¬ DLinks ds := by
+  refine ⟨by decide, by decide, fun h => ?_⟩
+  have := h.blockUp 1
+  revert this
+  decide
+
+/-- the same one level down: `a{} b{}`, `rule1.style.setProperty('top', …)`, then
+`rule0.style.setProperty(<that Property object>)` — the property is in two blocks and names only the first rule's.
+Recorded as known finding `C09-shared-property`. -/
+theorem share_property_breaks_links :
+    let ds := drun (DSt.init St.empty) [.sheet (.add styleS false), .sheet (.add styleS false),
+      .setProp [1] [0x74] true false true, .sharePropObj [0] [1] 1]
+    (∃ p, p ∈ ds.bprops (ds.style 0) ∧ p ∈ ds.bprops (ds.style 1) ∧ ds.ph.parent p = some (ds.style 0)) ∧
+      ¬ DLinks ds := by
+  refine ⟨⟨PId.made 0, by decide, by decide, by decide⟩, fun h => ?_⟩
+  have := h.propUp (BId.init 1) (PId.made 0) (by decide)
+  revert this
+  decide
+
+/-! ## edits that go around the DOM methods (`Model/SheetRaw.lean`): what survives, what breaks -/
+
+/-- `del sheet.cssRules[i]` / `del rule.cssRules[i]` (the live list object; the package's own tests do it) keeps the
+TREE valid — order, nested kinds, parent links of every rule that stays — and keeps blocks and properties linked.
+FULL statement (`Valid → Valid`) is false: the removed object still names its container, see
+`raw_delete_breaks_valid`. -/
+theorem raw_delete_keeps_tree_partial (ds : DSt) (path : List Nat) (i : Int) (hv : ValidTree ds.st) (hl : DLinks ds) :
+    ValidTree (dstep ds (.rawDelete path i)).1.st ∧ DLinks (dstep ds (.rawDelete path i)).1 := by
+  refine ⟨?_, dstep_raw_links ds _ hl (Or.inl ⟨path, i, rfl⟩)⟩
+  have hlive : Live ds.st := ⟨hv.kids, hv.links, hv.ids⟩
+  show ValidTree (if path.isEmpty then rawDelete ds.st i else nRawDelete ds.st path i).1
+  split
+  · have := rawDelete_live ds.st i hlive
+    exact ⟨rawDelete_topOK ds.st i hv.top, this.kids, this.links, this.ids⟩
+  · have := nRawDelete_live ds.st path i hlive
+    exact ⟨nRawDelete_topOK ds.st path i hv.top, this.kids, this.links, this.ids⟩
+
+/-- `a{}` then `del sheet.cssRules[0]`: the removed rule object still names the sheet — `Valid` is lost (known finding
+`C09-raw-list-edit`); the same one level down: the removed rule still names the @media rule -/
+theorem raw_delete_breaks_valid :
+    let ds := drun (DSt.init St.empty) [.sheet (.add styleS false)]
+    Valid ds.st ∧ ¬ Valid (dstep ds (.rawDelete [] 0)).1.st ∧
+      ¬ Valid (drun (DSt.init St.empty) [.sheet (.add (mediaS [styleS]) false), .rawDelete [0] 0]).st := by
+  simp only [← validB_iff]; decide
+
+/-- `@import "x";` then `sheet.cssRules.insert(0, <style rule>)`: no position check, no back pointer — the order and
+the links are lost -/
+theorem raw_insert_breaks_order_and_links :
+    let ds := drun (DSt.init St.empty) [.sheet (.add importS false), .rawInsert styleS 0]
+    ¬ TopOK ds.st.rules ∧ ¬ (∀ r ∈ ds.st.rules, r.linksOK none true = true) := by
+  decide
+
+/-- a contained rule object handed to `sheet.insertRule` goes through the position checks: the ORDER is kept — -/
+theorem reinsert_keeps_order (ds : DSt) (path : List Nat) (index : Option Int) (h : TopOK ds.st.rules) :
+    TopOK (dstep ds (.reinsert path index)).1.st.rules :=
+  reinsert_topOK ds.st path index h
+
+/-- — but it is not taken out of its old place: `@media{a{}}` then `sheet.insertRule(media.cssRules[0], 1)` returns 1,
+the object stands in both lists, names the @media rule as parent rule and the sheet as parent sheet (known finding
+`C09-rule-reinserted`; the package's own `resolveImports` moves rule objects this way) -/
+theorem reinsert_breaks_links :
+    let r := dstep (drun (DSt.init St.empty) [.sheet (.add (mediaS [styleS]) false)]) (.reinsert [0, 0] (some 1))
+    r.2 = .ok 1 ∧ kindsOf r.1.st.rules = [.media, .style] ∧ ¬ (∀ x ∈ r.1.st.rules, x.linksOK none true = true) := by
+  decide
+
+/-- non-vacuity of T9.5: a history over rules, blocks and properties of all forms satisfies `DOpOK`, and ends with
+two replaced blocks and six loose property objects recorded -/
+example :
+    let t : Cps := [0x74]
+    let c : Cps := [0x63]
+    let ops : List DOp := [
+      .sheet (.setText [styleS, mediaS [styleS, pageS [marginS 1]], fontfaceS]),
+      .newStyle [0] [(t, true), (c, true)] 0, .blockText [0] [(t, true)], .setProp [0] c true false true,
+      .setProp [0] c true false true, .setProp [0] c true false false, .setPropObj [0] t, .setPropObj [1, 1, 0] t,
+      .removeProp [0] c, .newStyle [1, 1] [(t, false)] 1, .sheet (.setMode false), .newStyle [1, 1] [(t, false)] 2,
+      .blockText [2] [(t, false), (c, true)], .shareStyle [2] [2], .sheet (.delete 0), .setProp [0, 0] t true true true]
+    (∀ op ∈ ops, DOpOK op) ∧ (drun (DSt.init St.empty) ops).goneB.length = 2 ∧
+      (drun (DSt.init St.empty) ops).goneP.length = 6 := by
   decide +kernel
 
 end CssVerif.C09
